@@ -126,6 +126,10 @@ def materialise(case):
         letters["secondary_structure"] = "".join(rng.sample(LETTERS, n)) if n <= len(LETTERS) else gen.rand_dna(rng, n, ".()")   # a string-valued track
     if rng.random() < 0.2:
         letters["tup_q"] = list(range(200, 200 + n))                                                                            # a tuple-valued track
+    rid = gen.rng_for(case["seed"], PROP, "feature-ids", case["i"])
+    for j, f in enumerate(feats):
+        if rid.random() < 0.4:
+            f["fid"] = "feat%04d" % j            # identifiers as annotation pipelines assign them
     rec = {"id": "r%d" % case["i"], "name": "nm", "seq": seq, "features": feats, "letters": letters,
            "annotations": {"topology": "circular", "molecule_type": "DNA", "tags": ["x"]}, "dbxrefs": ["db:1"]}
     mode = rng.choice(["single", "additive", "identity", "inverse", "mixed"])
